@@ -55,6 +55,13 @@ func runAggVerify(raw json.RawMessage, seed int64) (res Result) {
 		}
 	}()
 	w := NewWorld(seed)
+	if seed%3 == 0 {
+		// distinct formal messages that share their BYTES and differ only by their per-index hasher (domain tag)
+		m1 := w.Msg("m1")
+		for _, name := range []string{"m2", "m3"} {
+			w.msgs[name] = MsgDef{Tag: m1.Tag + name, Data: m1.Data}
+		}
+	}
 	n := len(c.Inp)
 	pks := make([]crypto.PublicKey, n)
 	msgs := make([][]byte, n)
